@@ -63,7 +63,7 @@ class DriverCfg(BaseOptimizationConfig):
     max_cycles: int = 1
     fitness_error: float | None = None
     ka: int = 0
-    kb: int = 0
+    Kb: int = 0
     kc: int = 0
 
 
@@ -95,7 +95,7 @@ class DriverOpt(OptimizationAbstract):
         self._config = DriverCfg(**parameters)
 
     def _params(self):
-        return {k: getattr(self._config, k) for k in ("ka", "kb", "kc") if k in self._config.model_fields_set}
+        return {k: getattr(self._config, k) for k in ("ka", "Kb", "kc") if k in self._config.model_fields_set}
 
     def before_initialization(self):
         d = self._task.data
